@@ -1297,6 +1297,8 @@ func ParseImportStmt(p *ParserZH) *syntax.ImportStmt {
 	if !match {
 		panic(p.getInvalidSyntaxPeek())
 	}
+	// the statement's line (an error raised while the import runs is reported there)
+	p.setStmtCurrentLine(stmt, tk)
 
 	if tk.Type == TypeLibString {
 		stmt.ImportLibType = syntax.LibTypeStd
